@@ -8,7 +8,8 @@ from .runner import new_result
 
 def cfg_to_doc(cfg):
     return {"clsname": cfg.clsname, "initial": repr(cfg.initial), "objects": list(cfg.objects),
-            "prefix": repr(cfg.prefix), "write_concern": cfg.write_concern, "label": cfg.label}
+            "prefix": repr(cfg.prefix), "write_concern": cfg.write_concern, "label": cfg.label,
+            "options": getattr(cfg, "options", {})}
 
 
 def _lit(s):
@@ -17,7 +18,8 @@ def _lit(s):
 
 def cfg_from_doc(d):
     return seq.Config(d["clsname"], initial=_lit(d["initial"]), objects=tuple(d["objects"]),
-                      prefix=_lit(d["prefix"]), write_concern=d["write_concern"], label=d["label"])
+                      prefix=_lit(d["prefix"]), write_concern=d["write_concern"], label=d["label"],
+                      options=d.get("options"))
 
 
 def event_sig(ref, ev):
